@@ -85,6 +85,14 @@ func newSandbox(scope, top, rootRel string, decoy func(dir string)) *sandbox {
 			decoy(d)
 		}
 	}
+	// a sibling that holds nothing but a well-formed decoy (a walk that gets there delivers it)
+	d := filepath.Join(parent, name+"-old")
+	must(os.MkdirAll(d, 0o755))
+	if decoy != nil {
+		decoy(d)
+	} else {
+		must(os.WriteFile(filepath.Join(d, "plain.txt"), []byte("OUTSIDE "+name+"-old\n"), 0o644))
+	}
 	return s
 }
 
